@@ -344,7 +344,7 @@ class PendingWhile(_PendingLoop[While]):
             elt=self.nsp_global.expr_wraper(self.converted_body),
             generators=[
                 comprehension(
-                    target=Name(id="_", ctx=Store()),
+                    target=Name(id=OL_WHILE_COUNTER, ctx=Store()),
                     iter=Call(
                         func=Attribute(
                             value=Name(id="itertools", ctx=Load()),
@@ -355,7 +355,7 @@ class PendingWhile(_PendingLoop[While]):
                             Lambda(
                                 args=arguments(
                                     posonlyargs=[],
-                                    args=[arg(arg="_")],
+                                    args=[arg(arg=OL_WHILE_COUNTER)],
                                     kwonlyargs=[],
                                     kw_defaults=[],
                                     defaults=[],
@@ -1154,15 +1154,18 @@ class PendingClassDef(_PendingCompoundStmt[ClassDef]):
                 func=Name(id="setattr", ctx=Load()),
                 args=[
                     self.nsp.get_load_name(self.node.name),
-                    Name(id="k", ctx=Load()),
-                    Name(id="v", ctx=Load()),
+                    Name(id=OL_CLASS_MEMBER_KEY, ctx=Load()),
+                    Name(id=OL_CLASS_MEMBER_VALUE, ctx=Load()),
                 ],
                 keywords=[],
             ),
             generators=[
                 comprehension(
                     target=Tuple(
-                        elts=[Name(id="k", ctx=Store()), Name(id="v", ctx=Store())],
+                        elts=[
+                            Name(id=OL_CLASS_MEMBER_KEY, ctx=Store()),
+                            Name(id=OL_CLASS_MEMBER_VALUE, ctx=Store()),
+                        ],
                         ctx=Store(),
                     ),
                     iter=Call(
